@@ -34,6 +34,21 @@ func mentions(v ssa.Value, pred func(ssa.Value) bool, depth int, seen map[ssa.Va
 			if st, ok := r.(*ssa.Store); ok && st.Addr == a && mentions(st.Val, pred, depth-1, seen) {
 				return true
 			}
+			// elements / fields of the cell (varargs arrays, composite literals)
+			switch ea := r.(type) {
+			case *ssa.IndexAddr:
+				for _, r2 := range *ea.Referrers() {
+					if st, ok := r2.(*ssa.Store); ok && st.Addr == ssa.Value(ea) && mentions(st.Val, pred, depth-1, seen) {
+						return true
+					}
+				}
+			case *ssa.FieldAddr:
+				for _, r2 := range *ea.Referrers() {
+					if st, ok := r2.(*ssa.Store); ok && st.Addr == ssa.Value(ea) && mentions(st.Val, pred, depth-1, seen) {
+						return true
+					}
+				}
+			}
 		}
 	}
 	in, ok := v.(ssa.Instruction)
